@@ -318,8 +318,9 @@ func (m *monC15) check(ev *hermes.VerifEvent, rc *RunCtx, where string) {
 			rc.Violate("C15", sig, fmt.Sprintf("%s: layer %d violates 0 < WP %.6g < FC %.6g <= PS %.6g < 1 (route %s, texture %q, groundwater %.3g)", where, z+1, wp, w, ps, route, textureOfLayer(g, z), g.GRW), ev.Zeit, z+1,
 				map[string]float64{"wp": wp, "fc": w, "ps": ps})
 		}
-		// strictly below the groundwater table field capacity equals pore volume
-		if z+1 > int(g.GRW+1) {
+		// a layer that lies entirely below the groundwater table (its upper edge, z dm, at or below the table): field capacity
+		// equals pore volume - also when the table sits exactly on the upper edge of the layer
+		if float64(z) >= g.GRW {
 			m.below = true
 			if w != ps {
 				rc.Violate("C15", "fc_ne_ps_below_groundwater", fmt.Sprintf("%s: layer %d lies below the groundwater table (%.3g dm) but FC %.6g != PS %.6g", where, z+1, g.GRW, w, ps), ev.Zeit, z+1, nil)
